@@ -146,12 +146,16 @@ def correlation_thread_groups(oil_sets, water_sets, pressures, derivatives=False
     return groups
 
 
-def judge_thread_groups(ck, desc, groups):
+def judge_thread_groups(ck, desc, groups, repeat=2):
     from vf import instrument
 
-    bad, errs, n_calls = instrument.concurrent_vs_alone(groups)
+    # (a scratch buffer is exposed for a few bytecodes only: every thread goes through its calls
+    # `repeat` times, with the interpreter handed over every 2 microseconds)
+    groups = [list(g) * repeat for g in groups]
+    bad, errs, n_calls = instrument.concurrent_vs_alone(groups, switch_interval=2e-6)
     ck.count("concurrent_evaluations", n_calls)
     ck.count("thread_groups")
+    ck.notes["yield_injections_between_library_statements"] = float(instrument._YieldInjector.yields)
     for k, i, a, b in bad[:3]:
         f = groups[k][i]
         ck.violation("threads-same-value-as-the-call-made-alone", {"function": getattr(f.func, "__name__", str(f.func)), "thread": k, "concurrent": a, "alone": b, "n_differing": len(bad)}, desc)
